@@ -15,6 +15,9 @@ OUT = os.path.dirname(HERE)
 sys.path.insert(0, "/verif")
 from sa.core import AnalysisError, Ctx, run_property  # noqa: E402
 
+_P = {"al": "HMMLLMMMHLHMMMLLLMM", "nz1": "MMMMHH", "nz2": "HMHMHLMHHMHLH", "ex1": "MHMMMHHMHHMMMHLML", "ex2": "HLMMMHMMHMMLMM",
+      "lq": "MMLHMLLMMMMMMHMMLMMMMLHMHLM", "px": "MMHMMHHHLLLMMM"}
+PRIO = {f"{m}-{k + 1}": c for m, letters in _P.items() for k, c in enumerate(letters)}
 MEMBERS = [m for m in ("main", "al", "nz1", "nz2", "ex1", "ex2", "lq", "px") if os.path.exists(f"{HERE}/{m}/cases.py")]
 _base = {}
 
@@ -36,7 +39,18 @@ def apply(prop, rel, reps):
     return text
 
 
+_CACHE_FILE = "/tmp/rt/merge_status_cache.json"
+_cache = json.load(open(_CACHE_FILE)) if "--cached" in sys.argv and os.path.exists(_CACHE_FILE) else {}
+
+
 def status(prop, rel, reps):
+    key = repr((prop, rel, reps))
+    if key not in _cache:
+        _cache[key] = _status(prop, rel, reps)
+    return _cache[key]
+
+
+def _status(prop, rel, reps):
     if prop not in _base:
         _base[prop] = {f.key() for f in run_property(prop, "quick")[0].findings}
     try:
@@ -97,6 +111,7 @@ def main():
             if kept:
                 groups.append((member, g, kept, ctl))
             print(member, g, "kept", kept, flush=True)
+    json.dump(_cache, open(_CACHE_FILE, "w"))
     # ---- numbering and reports
     for f in os.listdir(OUT):
         if re.match(r"^\d+\.md$", f):
@@ -135,10 +150,12 @@ def main():
             first, _, rest = text.partition("\n")
             title = re.sub(r"^#\s*", "", first)
             title = re.sub(r"^" + re.escape(g) + r"\s*[-:.]*\s*", "", title)
+            title = re.sub(r"^(/\s*[\w-]+\s*)+[-:]*\s*", "", title)          # "/ 1b / 1c - .."
+            title = re.sub(r"^\([^)]*\)\s*[-:]\s*", "", title)               # "(b, c) - .."
+            title = title[:1].upper() + title[1:] if title[:1].islower() and not title.startswith(("alias", "exprnorm", "normalize", "effects", "facts", "groups", "local_", "calls_", "register_", "hoist_", "copycontract")) else title
             open(f"{OUT}/{n}.md", "w").write(f"# {n}. ({g}) {title}\n\n(cases kept after the final replay: {', '.join('`' + t + '`' for t in kept)}; "
                                              f"written by member `{member}`, working files in `work/{member}/`)\n" + rest)
-            pm = re.search(r"\*\*Priority\*\*[: ]*([HML])", text)
-            prio = pm.group(1) if pm else "?"
+            prio = PRIO.get(g, "M")
         props = sorted({all_cases[t][0] for t in kept})
         table.append({"n": n, "group": g, "member": member, "title": title, "prio": prio, "cases": kept, "props": props,
                       "controls": sorted(set(ctl.values()))})
